@@ -25,7 +25,9 @@ RULE = ('Every stimulus function / factory of psiaudio.stim with a level (tone, 
         'gate / SAM-envelope / repeat transforms around a carrier), each run at (L, +), (L + d, +), (L + 20, +) and (L, -) through '
         'FlatCalibration, InterpCalibration, PointCalibration (where the stimulus can be generated with it) and without '
         'calibration; levels -40..140 dB, d in -30..30 dB, rates 25 k / 100 k / 195312.5; audiogram weighting on and off; whole-cycle '
-        'tones of 8..400 samples at every kind of calibration for the RMS law, SAM tones on the bin grid for the component law.  '
+        'tones of 8..400 samples at every kind of calibration for the RMS law, SAM tones on the bin grid for the component law; the '
+        'same with frequencies passed as Python ints / integer arrays (np.arange(fl, fh + 1)) through flat calibrations with a '
+        'fractional sensitivity (from_mv_pa(1.85), from_spl(80.5, 0.1)).  '
         'Non-trivial: every case.  Distinct = distinct case dictionaries.')
 TRUSTED = ['translate/pyexpr2coq.py + pyexpr2coq_ext.py + translate/c08_spec.py + translate/c07_spec.py (fail-closed AST translator; '
            'self-tested on every run by an independent interpreter of the emitted text against the real code)',
@@ -101,6 +103,10 @@ def _mkcal(spec):
         return None
     if spec['kind'] == 'flat':
         return C.FlatCalibration(spec['s'], fixed_gain=spec.get('g', 0.0))
+    if spec['kind'] == 'flat_mv_pa':          # non-integer sensitivity in dB, as a microphone sheet gives it
+        return C.FlatCalibration.from_mv_pa(spec['mv_pa'])
+    if spec['kind'] == 'flat_spl':
+        return C.FlatCalibration.from_spl(spec['spl'], vrms=spec['vrms'])
     cls = C.InterpCalibration if spec['kind'] == 'interp' else C.PointCalibration
     return cls(np.array(spec['freqs'], dtype=float), np.array(spec['sens'], dtype=float), fixed_gain=spec.get('g', 0.0))
 
@@ -339,20 +345,47 @@ def _impl_rms(case):
     from psiaudio import stim, util
     cal = _mkcal(case['cal'])
     fs, N, L, pol = case['fs'], case['N'], case['L'], case['pol']
+    ints = bool(case.get('ints'))     # frequencies handed over as Python ints (integer-dtype frequency arrays inside)
+
+    def fr(x):
+        if not ints:
+            return x
+        assert x == int(x), x
+        return int(x)
+    extra = {}
+    if ints:
+        # get_sf over an integer frequency array (np.arange(fl, fh + 1) as the FIR noise factory builds it) against
+        # scalar float requests, and the equalized FIR taps for integer against float band edges
+        fl, fh = case['band']
+        extra['arr'] = [float(v) for v in cal.get_sf(np.arange(int(fl), int(fh) + 1), L)]
+        extra['arr_scalar'] = [float(cal.get_sf(float(f), L)) for f in range(int(fl), int(fh) + 1)]
+        wl, wh = int(fl), int(fl) + 3000          # a band wide enough for 201 taps to resolve
+        ti = stim.BandlimitedFIRNoiseFactory(fs, wl, wh, L, ntaps=201, seed=1, calibration=cal, equalize=True).taps
+        tf = stim.BandlimitedFIRNoiseFactory(fs, float(wl), float(wh), L, ntaps=201, seed=1, calibration=cal, equalize=True).taps
+        extra['fir_peak'] = float(np.max(np.abs(tf)))
+        extra['fir_dev'] = float(np.max(np.abs(ti - tf)) / max(extra['fir_peak'], 1e-300))
     if case['kind'] == 'tone_rms':
         f = case['k'] * fs / N
-        y = stim.tone(fs, f, L, case['phase'], pol, cal, samples=N, offset=case['offset'])
+        if case.get('factory'):
+            y = stim.ToneFactory(fs, fr(f), L, case['phase'], pol, calibration=cal).next(N)
+        else:
+            y = stim.tone(fs, fr(f), L, case['phase'], pol, cal, samples=N, offset=case['offset'])
         r = float(util.rms(y))
-        return {'y': [float(v) for v in y[:8]], 'rms': r, 'sf': float(cal.get_sf(f, L)), 'db': float(cal.get_db(f, r)),
-                'csd_bin': float(np.abs(util.csd(y, detrend=None)[case['k']])), 'n': int(len(y))}
+        return dict(extra, y=[float(v) for v in y[:8]], rms=r, sf=float(cal.get_sf(f, L)), db=float(cal.get_db(f, r)),
+                    csd_bin=float(np.abs(util.csd(y, detrend=None)[case['k']])), n=int(len(y)))
     fc, fm = case['kc'] * fs / N, case['km'] * fs / N
-    y = stim.sam_tone(fs, fc, fm, L, phase=case['phase'], polarity=pol, calibration=cal, samples=N, offset=case['offset'],
-                      eq_power=case['eq_power'])
+    if case.get('factory'):
+        y = stim.SAMToneFactory(fs, fr(fc), fr(fm), L, phase=case['phase'], polarity=pol, calibration=cal,
+                                eq_power=case['eq_power']).next(N)
+    else:
+        y = stim.sam_tone(fs, fr(fc), fr(fm), L, phase=case['phase'], polarity=pol, calibration=cal, samples=N,
+                          offset=case['offset'], eq_power=case['eq_power'])
     c = np.abs(util.csd(y, detrend=None))
     freqs = [fc - fm, fc, fc + fm]
-    return {'y': [float(v) for v in y[:8]], 'rms': float(util.rms(y)), 'sf': [float(cal.get_sf(f, L)) for f in freqs],
-            'comp': [float(c[case['kc'] - case['km']]), float(c[case['kc']]), float(c[case['kc'] + case['km']])],
-            'eq': float(stim.sam_eq_power(1)), 'db': float(cal.get_db(fc, float(util.rms(y)))), 'n': int(len(y))}
+    # the expected scale factors are asked for one float frequency at a time
+    return dict(extra, y=[float(v) for v in y[:8]], rms=float(util.rms(y)), sf=[float(cal.get_sf(float(f), L)) for f in freqs],
+                comp=[float(c[case['kc'] - case['km']]), float(c[case['kc']]), float(c[case['kc'] + case['km']])],
+                eq=float(stim.sam_eq_power(1)), db=float(cal.get_db(fc, float(util.rms(y)))), n=int(len(y)))
 
 
 def _df2t(b, a, x, z):
@@ -507,6 +540,15 @@ def _oracle_stim(case, res):
 
 def _oracle_rms(case, res):
     L = case['L']
+    if case.get('ints'):
+        fl, fh = case['band']
+        for f, a, b in zip(range(int(fl), int(fh) + 1), res['arr'], res['arr_scalar']):
+            if not abs(a - b) <= 1e-12 * b:
+                return (f'{case["cal"]} level {L}: get_sf over the integer frequency array np.arange({int(fl)}, {int(fh) + 1}) gives '
+                        f'{a} at {f} Hz, the scalar request get_sf({float(f)}, {L}) gives {b} ({20 * math.log10(a / b):+.3f} dB)')
+        if not (res['fir_peak'] > 0 and res['fir_dev'] <= 1e-12):
+            return (f'{case["cal"]} level {L}: equalized FIR noise taps for integer band edges {int(fl)}, {int(fl) + 3000} differ from '
+                    f'those for the same edges as floats by {res["fir_dev"]} of the largest tap')
     if case['kind'] == 'tone_rms':
         tag = f"tone of {case['k']} cycles in {case['N']} samples (fs {case['fs']}, {case['cal']['kind']} calibration, level {L}, polarity {case['pol']})"
         if res['n'] != case['N']:
@@ -527,7 +569,7 @@ def _oracle_rms(case, res):
     tot = math.sqrt(sum((s * w / eq) ** 2 for s, w in zip(res['sf'], (0.25, 0.5, 0.25))))
     if not abs(res['rms'] - tot) <= 1e-9 * tot:
         return f'{tag}: total RMS {res["rms"]}, the component powers add to {tot}'
-    if case['eq_power'] and case['cal']['kind'] == 'flat' and not abs(res['db'] - L) <= 1e-9 * max(1.0, abs(L)):
+    if case['eq_power'] and case['cal']['kind'].startswith('flat') and not abs(res['db'] - L) <= 1e-9 * max(1.0, abs(L)):
         return f'{tag}: equal-power SAM tone through a flat calibration reads back {res["db"]} dB'
     return None
 
@@ -717,8 +759,37 @@ def _rms_case(rng, kind, which):
     return case
 
 
+NONINT_CALS = [{'kind': 'flat_mv_pa', 'mv_pa': 1.85}, {'kind': 'flat_spl', 'spl': 80.5, 'vrms': 0.1},
+               {'kind': 'flat', 's': 93.37, 'g': 0.0}, {'kind': 'flat', 's': 100.0, 'g': 2.25}]
+
+
+def _int_case(rng, kind):
+    """frequencies on an integer grid, passed as Python ints, through flat calibrations whose sensitivity is not a whole dB"""
+    fs, N = rng.choice([(100000.0, 1000), (100000.0, 500), (100000.0, 2000), (25000.0, 250), (25000.0, 500)])
+    case = {'kind': kind, 'fs': fs, 'N': N, 'L': _level(rng), 'pol': rng.choice([1, -1]), 'phase': rng.uniform(-3, 3),
+            'offset': 0, 'ints': True, 'factory': rng.random() < 0.5, 'cal': dict(rng.choice(NONINT_CALS))}
+    fl = rng.choice([500, 2000, 3999])
+    case['band'] = [fl, fl + rng.randint(1, 8)]
+    if kind == 'tone_rms':
+        case['k'] = rng.randint(1, (N - 1) // 2)
+    else:
+        km = rng.randint(1, N // 16)
+        kc = rng.randint(km + 1, (N - 1) // 2 - km)
+        case.update(kc=kc, km=km, eq_power=rng.random() < 0.7)
+    if case['cal']['kind'] == 'flat' and rng.random() < 0.5:
+        case['cal']['s'] = float(rng.randint(60, 120)) + rng.choice([0.37, 0.5, 0.81])
+    return case
+
+
 def corpus():
     return [
+        # FlatCalibration.get_sens on an integer-dtype frequency array must not truncate a fractional sensitivity
+        {'kind': 'sam_rms', 'fs': 100000.0, 'N': 1000, 'kc': 80, 'km': 1, 'L': 80.0, 'pol': 1, 'phase': 0.3, 'offset': 0,
+         'eq_power': True, 'ints': True, 'factory': False, 'band': [2000, 2004], 'cal': {'kind': 'flat_mv_pa', 'mv_pa': 1.85}},
+        {'kind': 'sam_rms', 'fs': 100000.0, 'N': 1000, 'kc': 80, 'km': 1, 'L': 80.0, 'pol': -1, 'phase': 0.3, 'offset': 0,
+         'eq_power': False, 'ints': True, 'factory': True, 'band': [2000, 2004], 'cal': {'kind': 'flat_spl', 'spl': 80.5, 'vrms': 0.1}},
+        {'kind': 'tone_rms', 'fs': 100000.0, 'N': 1000, 'k': 80, 'L': 80.0, 'pol': 1, 'phase': 0.3, 'offset': 0,
+         'ints': True, 'factory': False, 'band': [3999, 4003], 'cal': {'kind': 'flat_mv_pa', 'mv_pa': 1.85}},
         {'kind': 'stim', 'type': 'notch_noise', 'fs': 100000.0, 'cal': {'kind': 'flat', 's': 95.0, 'g': 0.0}, 'L': 60.0, 'd': 13.7,
          'par': {'f': 4000.0, 'q': 1.33, 'dur': 0.2, 'seed': 3}},
         {'kind': 'stim', 'type': 'bandlimited_click', 'fs': 100000.0, 'cal': {'kind': 'flat', 's': 95.0, 'g': 0.0}, 'L': 60.0, 'd': 6.0,
@@ -746,6 +817,10 @@ def cases(tier, rng):
             yield _rms_case(rng, 'sam_rms', which)
     for _ in range(60 if quick else 600):
         yield _filter_case(rng)
+    for _ in range(30 if quick else 400):
+        yield _int_case(rng, 'sam_rms')
+    for _ in range(15 if quick else 200):
+        yield _int_case(rng, 'tone_rms')
 
 
 def _filter_case(rng):
@@ -770,7 +845,8 @@ def search(tier, rng):
     fast = [t for t in PLAN if t not in SLOW]
     for i in range(240 if tier == 'quick' else 2400):
         if i % 3 == 0:
-            case = _rms_case(rng, rng.choice(['tone_rms', 'sam_rms']), rng.choice(['flat', 'interp', 'point']))
+            case = _rms_case(rng, rng.choice(['tone_rms', 'sam_rms']), rng.choice(['flat', 'interp', 'point'])) if i % 2 else \
+                _int_case(rng, rng.choice(['tone_rms', 'sam_rms']))
         else:
             t = fast[i % len(fast)]
             case = _stim_case(rng, t, rng.choice(PLAN[t]))
